@@ -13,12 +13,16 @@ Groups of cases (one forked worker call per case; `g` selects the group):
       Certificate.validate over the fixture chains.
   sv  sign/verify: every key x hash x {PKCS1v15, PSS | raw, DER} x prehashed x message length;
       SPSDK signs, SPSDK and the reference verify; wrong key, wrong hash/padding, all single-bit
-      message flips for messages <= 8 B; reference-made signatures must verify under SPSDK.
-  fl  all single-bit flips of a (reference-made, deterministic) signature: SPSDK verdict must equal
+      message flips for short messages, digest flips; reference-made signatures must verify under
+      SPSDK; the key's default algorithm; PlainFileSP.get_signature x requested encoding.
+  fl  single-bit flips of a (reference-made, deterministic) signature: SPSDK's verdict must equal
       the reference verdict for every flipped bit.
   sh  valid ECDSA signatures with *chosen shapes*: with the fixture's private scalar, a nonce k and
       a freely chosen digest (prehashed mode) every byte-length class of s (and three classes of
-      r) is a genuine signature; raw and DER must verify under SPSDK.
+      r) is a genuine signature; plus message-mode signatures whose s lost one / two leading bytes
+      (found by walking counter messages); raw and DER must verify under SPSDK.
+  cl  the nxpcrypto command line on every key: key convert (PEM/DER/RAW, --puk, RAW read back),
+      key verify, signature create/verify (hash given or default, NXP/DER, PSS, encrypted key).
 
 Oracle: fixture numbers (JSON written by tools/mkfixtures.py with `cryptography`, never by SPSDK),
 vf/ref/der.py, vf/ref/ecdsa.py, vf/ref/rsa.py, and the `openssl` command line for decrypting
@@ -41,11 +45,12 @@ from vf.ref import rsa as rrsa
 LEVEL = "exploration"
 
 HASHES = ("sha1", "sha256", "sha384", "sha512")
-MSG_LENS = (0, 1, 8, 55, 56, 64, 1000)
-PASSWORDS = {"none": None, "p": "p", "p32": "Pw-0123456789+abcdefghijklmnopq!"}
+MSG_LENS = (0, 1, 8, 55, 56, 64, 1000)  # quick: DESIGN §9 alphabet (+ 8 B for the exhaustive message flips)
+# thorough: both sides of the SHA-1/256 (64 B block, 55/56 padding edge) and SHA-384/512 (128 B block, 111/112) boundaries
+MSG_LENS_THOROUGH = (0, 1, 2, 8, 31, 32, 33, 55, 56, 57, 63, 64, 65, 111, 112, 113, 119, 120, 127, 128, 129, 1000, 4096, 65537)
+PASSWORDS = {"none": None, "p": "p", "p32": "Pw-0123456789+abcdefghijklmnop\u00e9!"}  # 32 chars, 33 UTF-8 bytes
 assert len(PASSWORDS["p32"]) == 32
 WIDTHS = (32, 48, 66)
-CURVE_OF_PREFIX = {"p256": "secp256r1", "p384": "secp384r1", "p521": "secp521r1"}
 DEFAULT_HASH = {"secp256r1": "sha256", "secp384r1": "sha384", "secp521r1": "sha512", "rsa": "sha256"}
 FLIP_CHUNK = 128  # signature bits per `fl` case
 
@@ -258,7 +263,6 @@ def w_conv(case: dict) -> dict:
                 amb = max(lr, ls) <= max([w for w in WIDTHS if w < size] or [0])
                 cnt["cv_ambiguous_width"] += amb
                 tag = f"{c.name} r:{lr}B/msb{mr} s:{ls}B/msb{ms} len(DER)={len(D)}"
-                dclass = "der-len//2-is-a-raw-width" if len(D) // 2 in WIDTHS else "other-der-len"
 
                 # --- DER input ---------------------------------------------------------------
                 # der_fail names what ECDSASignature itself does wrong on this DER input; the provider
@@ -339,11 +343,11 @@ def w_conv(case: dict) -> dict:
                             bad = "rejected" if st == "spsdk" else st
                         elif want_name == "DER":
                             if out != D:
-                                bad = "der-out:" + ("unconverted" if out == src else "wrong-bytes")
+                                bad = "der-out:" + ("got-raw" if out == R else "wrong-bytes")
                         else:
                             why = judge_raw_out(out, r, s, size)
                             if why:
-                                bad = "raw-out:" + ("unconverted" if out == src else why)
+                                bad = "raw-out:" + ("got-der" if out == D else why)
                         if bad is None:
                             continue
                         if src_name == "der" and der_fail:
@@ -366,7 +370,8 @@ def decrypt_pkcs8(data: bytes, enc: str, pw: str) -> bytes:
                            input=data, capture_output=True, timeout=60)
         if p.returncode == 0 and p.stdout:
             return p.stdout
-        raise ValueError(f"openssl pkcs8 failed: {p.stderr[-300:]!r}")
+        # (openssl's stderr carries thread ids: keep the message stable)
+        raise ValueError("openssl pkcs8 cannot open the exported key with the password it was exported with")
     from cryptography.hazmat.primitives import serialization as ser
 
     load = ser.load_pem_private_key if enc == "PEM" else ser.load_der_private_key
@@ -456,19 +461,39 @@ def w_roundtrip(case: dict) -> dict:
     def v(clause: str, disc: str, detail: str) -> None:
         viol.append((f"C08.{clause}", disc, f"{name} {enc} pw={pwn}: {detail}"))
 
+    # One defect shows through several entry points of the same case: failures are collected per
+    # (clause, symptom) and reported once, with the set of entry points in the discriminator.
+    agg: dict = {}
+    tried: dict = {}
+
+    def note(clause: str, ep: str, symptom: Optional[str], detail: str = "") -> None:
+        tried.setdefault(clause, []).append(ep)
+        if symptom:
+            agg.setdefault((clause, symptom), []).append((ep, detail))
+
     def cmp(ep: str, got: dict, exp: dict, clause: str) -> None:
         cnt["rt_entry_points"] += 1
         distinct.append(f"rt|{name}|{kind}|{enc}|{pwn}|{ep}")
         if got != exp:
             bad = sorted(f for f in set(got) | set(exp) if got.get(f) != exp.get(f))
-            v(clause, f"{where}/{ep}:wrong-{'+'.join(bad)}", f"got {core.jdump(got)[:300]} expected {core.jdump(exp)[:300]}")
+            note(clause, ep, f"wrong-{'+'.join(bad)}", f"got {core.jdump(got)[:300]} expected {core.jdump(exp)[:300]}")
+        else:
+            note(clause, ep, None)
 
     def outcome(ep: str, st: str, val: Any, clause: str) -> bool:
         if st == "ok":
             return True
         cnt["rt_entry_points"] += 1
-        v(clause, f"{where}/{ep}:{'parse-rejected' if st == 'spsdk' else st}", str(val))
+        note(clause, ep, "parse-rejected" if st == "spsdk" else st, str(val))
         return False
+
+    def result() -> dict:
+        for (clause, symptom), eps in sorted(agg.items()):
+            names = sorted({e for e, _ in eps})
+            all_eps = sorted(set(tried.get(clause, [])))
+            which = "every-entry-point" if names == all_eps and len(names) > 1 else "+".join(names)
+            v(clause, f"{where}:{symptom}@{which}", "; ".join(f"{e}: {d}" for e, d in eps)[:1200])
+        return {"viol": core.dedupe(viol), "count": cnt, "distinct": distinct}
 
     tmpdir = tempfile.mkdtemp(prefix="c08-", dir=os.environ.get("VERIF_WORKDIR") or None)
     try:
@@ -481,10 +506,10 @@ def w_roundtrip(case: dict) -> dict:
             st, data = call(src.export, password=pw, encoding=E)
             if st == "spsdk":
                 cnt["rt_rejected_exports"] += 1
-                return {"viol": core.dedupe(viol), "count": cnt, "distinct": distinct}
+                return result()
             if st != "ok":
                 v("export-priv", f"{where}:{st}", str(data))
-                return {"viol": core.dedupe(viol), "count": cnt}
+                return result()
             try:
                 o = oracle_private_bytes(data, enc, pw)
                 if o["type"] == "ecc" and o.get("x") is None:
@@ -495,9 +520,10 @@ def w_roundtrip(case: dict) -> dict:
             st, got = call(cls.parse, data, password=pw)
             if outcome("typed-parse", st, got, "roundtrip-priv"):
                 cmp("typed-parse", priv_numbers_got(got), exp, "roundtrip-priv")
-                if not (got == src) or got == other or not got.verify_public_key(src.get_public_key()) \
-                        or got.verify_public_key(other.get_public_key()):
-                    v("key-equality", f"{typ}/priv", "== / verify_public_key disagree with the numbers")
+                st, eq = call(lambda: (got == src, got == other, got.verify_public_key(src.get_public_key()),
+                                       got.verify_public_key(other.get_public_key())))
+                if st != "ok" or tuple(bool(x) for x in eq) != (True, False, True, False):
+                    v("key-equality", f"{typ}/priv", f"== / verify_public_key disagree with the numbers: {st} {eq}")
             st, got = call(PrivateKey.parse, data, password=pw)
             if outcome("auto-parse", st, got, "roundtrip-priv"):
                 cmp("auto-parse", priv_numbers_got(got), exp, "roundtrip-priv")
@@ -518,7 +544,7 @@ def w_roundtrip(case: dict) -> dict:
                         o["x"], o["y"] = exp.get("x"), exp.get("y")
                     cmp("file-bytes", o, exp, "export-priv")
                 except (ValueError, rder.DerError) as e:
-                    v("export-priv", f"{where}:file-not-readable-by-oracle", f"{type(e).__name__}: {e}")
+                    v("export-priv", f"{where}:not-readable-by-oracle", f"{type(e).__name__}: {e}")
                 for ep, loader in (("file-load-auto", PrivateKey.load), ("file-load-typed", cls.load)):
                     st, got = call(loader, path, password=pw)
                     if outcome(ep, st, got, "roundtrip-priv"):
@@ -546,10 +572,10 @@ def w_roundtrip(case: dict) -> dict:
                 st, data = call(spub.export, encoding=E)
             if st == "spsdk":
                 cnt["rt_rejected_exports"] += 1
-                return {"viol": core.dedupe(viol), "count": cnt, "distinct": distinct}
+                return result()
             if st != "ok":
                 v("export-pub", f"{where}:{st}", str(data))
-                return {"viol": core.dedupe(viol), "count": cnt}
+                return result()
             try:
                 cmp("exported-bytes", oracle_public_bytes(data, enc, name), exp, "export-pub")
             except (ValueError, rder.DerError) as e:
@@ -577,8 +603,9 @@ def w_roundtrip(case: dict) -> dict:
             st, got = call(cls.parse, data)
             if outcome("typed-parse", st, got, "roundtrip-pub"):
                 cmp("typed-parse", pub_numbers_got(got), exp, "roundtrip-pub")
-                if not (got == spub) or got == other.get_public_key():
-                    v("key-equality", f"{typ}/pub", "== disagrees with the numbers")
+                st, eq = call(lambda: (got == spub, got == other.get_public_key()))
+                if st != "ok" or tuple(bool(x) for x in eq) != (True, False):
+                    v("key-equality", f"{typ}/pub", f"== disagrees with the numbers: {st} {eq}")
             st, got = call(PublicKey.parse, data)
             if outcome("auto-parse", st, got, "roundtrip-pub"):
                 cmp("auto-parse", pub_numbers_got(got), exp, "roundtrip-pub")
@@ -601,7 +628,7 @@ def w_roundtrip(case: dict) -> dict:
                 v("parse-type-confusion", f"{where}:{st}", f"{wrong_cls.__name__}.parse -> {got!r}")
     finally:
         shutil.rmtree(tmpdir, ignore_errors=True)
-    return {"viol": core.dedupe(viol), "count": cnt, "distinct": distinct}
+    return result()
 
 
 # ---------------------------------------------------------------------------------------------
@@ -795,15 +822,16 @@ def w_sign(case: dict) -> dict:
     w_same = other_key(name, True)
     w_diff = other_key(name, False)
     wrong = [(w_same, spsdk_priv(w_same).get_public_key()), (w_diff, spsdk_priv(w_diff).get_public_key())]
-    where = f"{typ}/{scheme}/{'prehashed' if pre else 'message'}"
     given = case.get("sigs") or {}
     flip_full = case.get("flip8", True)
+    flip_max = case.get("flipmax", 8)
+    lens = MSG_LENS_THOROUGH if case.get("lens") == "thorough" else MSG_LENS
 
     def v(clause: str, disc: str, detail: str, L: int, sig: bytes) -> None:
         viol.append((f"C08.{clause}", disc, f"{name} {h} {scheme} pre={pre} len={L}: {detail}"))
         aux[str(L)] = sig
 
-    for L in MSG_LENS:
+    for L in lens:
         msg = core.seeded_bytes(seed, f"msg|{name}|{h}|{L}", L)
         dg = hashlib.new(h, msg).digest()
         data = dg if pre else msg
@@ -815,7 +843,7 @@ def w_sign(case: dict) -> dict:
             cnt["sv_sign_rejected"] += 1
             continue
         if st != "ok":
-            viol.append(("C08.sign", f"{where}:{st}", f"{name} {h} len={L}: {sig}"))
+            viol.append(("C08.sign", f"{typ}/{scheme}:{st}", f"{name} {h} pre={pre} len={L}: {sig}"))
             continue
         cnt["sv_signatures"] += 1
         distinct.append(f"sv|{name}|{h}|{scheme}|{pre}|{L}")
@@ -827,22 +855,47 @@ def w_sign(case: dict) -> dict:
         else:
             fmt_ok = recdsa.split_der(sig) is not None
         if not fmt_ok:
-            v("sign-format", where, f"{len(sig)} bytes {sig[:8].hex()}..", L, sig)
+            # everything below presupposes a signature of the requested form
+            v("sign-format", f"{typ}/{scheme}", f"{len(sig)} bytes {sig[:8].hex()}..", L, sig)
+            continue
         # positive: both verifiers
         cnt["sv_verifications"] += 2
         got = spsdk_verify(pub, sig, data, kw_v)
         if got != "T":
             v("verify-valid-signature", valid_disc(typ, scheme, got, sig, k), "SPSDK does not verify what it signed", L, sig)
         if not ref_verify(name, h, scheme, dg, sig):
-            v("sign-ref-verify", where, "reference implementation does not verify SPSDK's signature", L, sig)
+            v("sign-ref-verify", f"{typ}/{scheme}", "reference implementation does not verify SPSDK's signature", L, sig)
+        # algorithm left to the key's default (sha256 for RSA, by curve size for ECC)
+        if L == 1 and not pre and h == DEFAULT_HASH[k.get("curve", "rsa")] and str(L) not in given:
+            kw_d = {a: b for a, b in kw_s.items() if a != "algorithm"}
+            st, dsig = call(prv.sign, data, **kw_d)
+            cnt["sv_signatures"] += 1
+            distinct.append(f"sv-default-alg|{name}|{scheme}")
+            if st != "ok":
+                viol.append(("C08.sign", f"{typ}/{scheme}:default-algorithm:{st}", f"{name}: {dsig}"))
+            else:
+                got = spsdk_verify(pub, dsig, data, {a: b for a, b in kw_v.items() if a != "algorithm"})
+                if got != "T" or not ref_verify(name, h, scheme, dg, dsig):
+                    v("default-algorithm", f"{typ}/{scheme}", f"default hash should be {h}: SPSDK verify {got}", L, dsig)
         # reference-made signature must verify under SPSDK
         rsig = ref_sign(name, h, scheme, dg, seed, f"{name}|{h}|{scheme}|{L}")
-        if not ref_verify(name, h, scheme, dg, rsig):
+        if L == lens[0] and not ref_verify(name, h, scheme, dg, rsig):
             raise core.HarnessError("reference signer/verifier disagree")
         cnt["sv_verifications"] += 1
         got = spsdk_verify(pub, rsig, data, kw_v)
         if got != "T":
             v("verify-valid-signature", valid_disc(typ, scheme, got, rsig, k), f"valid reference-made signature {rsig.hex()} not verified", L, rsig)
+        # PSS with another salt length (0, maximal) is another parameter set: verdicts must agree with the reference
+        if typ == "rsa" and scheme == "pss" and L == 1:
+            em_len = (k["n"].bit_length() - 1 + 7) // 8
+            for sl in (0, em_len - rrsa.hlen(h) - 2):
+                osig = rrsa.sign(k["n"], k["d"], h, dg, True, core.seeded_bytes(seed, f"salt{sl}|{name}|{h}", sl), crt=rsa_crt(name))
+                want = ref_verify(name, h, scheme, dg, osig)
+                got = spsdk_verify(pub, osig, data, kw_v)
+                cnt["sv_negative"] += 1
+                if (got == "T") != want:
+                    v("verify-agrees-with-reference", f"{typ}/{scheme}:salt-length:{'accepts-invalid' if got == 'T' else 'rejects-valid:' + got}",
+                      f"PSS signature with salt length {sl}: reference {want}, SPSDK {got}", L, osig)
         # negatives — verdicts must agree with the reference
         negs = []
         for wname, wpub in wrong:
@@ -854,7 +907,7 @@ def w_sign(case: dict) -> dict:
         if typ == "rsa":
             s2 = "pss" if scheme == "v15" else "v15"
             negs.append(("wrong-padding", pub, name, h, s2, data, dg, spsdk_kwargs(typ, h, s2, pre, False)))
-        if L and (L <= 1 or (L <= 8 and flip_full)):
+        if L and (L <= 1 or (L <= flip_max and flip_full)):
             for bit in range(8 * L):
                 m2 = flip(msg, bit)
                 d2 = hashlib.new(h, m2).digest()
@@ -872,32 +925,33 @@ def w_sign(case: dict) -> dict:
             want = ref_verify(vname, vh, vscheme, vdg, sig)
             got = spsdk_verify(vpub, sig, vdata, vkw)
             if (got == "T") != want:
-                v("verify-agrees-with-reference", f"{where}:{kindn}:{'accepts-invalid' if got == 'T' else 'rejects-valid:' + got}",
+                v("verify-agrees-with-reference", f"{typ}/{scheme}:{kindn}:{'accepts-invalid' if got == 'T' else 'rejects-valid:' + got}",
                   f"reference says {want}, SPSDK {got} ({kindn}, key {vname}, {vh}, {vscheme})", L, sig)
     # real signature provider (key file -> PlainFileSP -> get_signature): the CLI's path
-    if typ == "ecc" and not pre and not given:
+    # (RSA: the requested encoding must not matter; done at the default hash only, every load re-validates the key)
+    if not pre and (not given or "sp" in given) and (typ == "ecc" or h == DEFAULT_HASH["rsa"]):
         from spsdk.crypto.crypto_types import SPSDKEncoding
         from spsdk.crypto.signature_provider import PlainFileSP
 
-        c = recdsa.CURVES[k["curve"]]
         msg = core.seeded_bytes(seed, f"spmsg|{name}|{h}", 33)
         dg = hashlib.new(h, msg).digest()
-        for want_name, want in (("default", None), ("NXP", SPSDKEncoding.NXP), ("DER", SPSDKEncoding.DER)):
-            kwargs = {"der_format": True} if scheme == "der" else {}
-            st, sp = call(PlainFileSP, fixtures.key_path(name, True, "pem"), hash_alg=henum(h), **kwargs)
-            if st != "ok":
-                viol.append(("C08.sp-normalise", f"PlainFileSP:{st}", f"{name}: {sp}"))
-                break
+        kwargs = {"der_format": True} if scheme == "der" else ({"pss_padding": True} if scheme == "pss" else {})
+        st, sp = call(PlainFileSP, fixtures.key_path(name, True, "pem"), hash_alg=henum(h), **kwargs)
+        if st != "ok":
+            viol.append(("C08.sp-normalise", f"PlainFileSP:{st}", f"{name}: {sp}"))
+        for want_name, want in (("default", None), ("NXP", SPSDKEncoding.NXP), ("DER", SPSDKEncoding.DER)) if st == "ok" else ():
             st, out = call(sp.get_signature, msg, want)
             cnt["sv_signatures"] += 1
             distinct.append(f"sv-sp|{name}|{h}|{scheme}|{want_name}")
-            out_scheme = "der" if want_name == "DER" else "raw"
+            out_scheme = scheme if typ == "rsa" else ("der" if want_name == "DER" else "raw")
             if st != "ok":
                 viol.append(("C08.sp-normalise", f"PlainFileSP:{'rejected' if st == 'spsdk' else st}", f"{name} {h}: {out}"))
             elif not ref_verify(name, h, out_scheme, dg, out):
-                d = "PlainFileSP:output-not-valid-" + out_scheme
-                if recdsa.split_der(out) is not None and out_scheme == "raw":
-                    d += ":unconverted"
+                d = f"PlainFileSP:{out_scheme}-out:not-valid"
+                if typ == "ecc" and out_scheme == "raw" and ref_verify(name, h, "der", dg, out):
+                    d = "PlainFileSP:raw-out:got-der"
+                elif typ == "ecc" and out_scheme == "der" and ref_verify(name, h, "raw", dg, out):
+                    d = "PlainFileSP:der-out:got-raw"
                 viol.append(("C08.sp-normalise", d, f"{name} {h} sign->{scheme} requested {want_name}: {len(out)} bytes"))
                 aux["sp"] = out
     res = {"viol": core.dedupe(viol), "count": cnt, "distinct": distinct}
@@ -929,7 +983,10 @@ def w_flips(case: dict) -> dict:
         if got != "T":
             viol.append(("C08.verify-valid-signature", valid_disc(typ, scheme, got, sig, k), f"{name} {h}: {sig.hex()}"))
     end = 8 * len(sig) if hi is None else min(hi, 8 * len(sig))
-    for bit in range(lo, end):
+    bits = range(lo, end)
+    if case.get("bytes3"):
+        bits = [8 * b + i for b in (0, len(sig) // 2, len(sig) - 1) for i in range(8)]
+    for bit in bits:
         s2 = flip(sig, bit)
         want = ref_verify(name, h, scheme, dg, s2)
         got = spsdk_verify(pub, s2, msg, kw)
@@ -938,7 +995,7 @@ def w_flips(case: dict) -> dict:
         cnt["fl_spsdk_raised"] += got.startswith("X")
         if (got == "T") != want:
             viol.append(("C08.verify-agrees-with-reference",
-                         f"{typ}/{scheme}/message:signature-bit-flip:{'accepts-invalid' if got == 'T' else 'rejects-valid:' + got}",
+                         f"{typ}/{scheme}:signature-bit-flip:{'accepts-invalid' if got == 'T' else 'rejects-valid:' + got}",
                          f"{name} {h} bit {bit} of {sig.hex()}: reference {want}, SPSDK {got}"))
     return {"viol": core.dedupe(viol), "count": cnt}
 
@@ -1026,21 +1083,255 @@ def w_shape(case: dict) -> dict:
                 got = spsdk_verify(pub, s2, dg, kw)
                 if (got == "T") != want:
                     viol.append(("C08.verify-agrees-with-reference",
-                                 f"ecc/{scheme}/prehashed:signature-bit-flip:{'accepts-invalid' if got == 'T' else 'rejects-valid:' + got}",
+                                 f"ecc/{scheme}:signature-bit-flip:{'accepts-invalid' if got == 'T' else 'rejects-valid:' + got}",
                                  f"{name} r:{byte_len(r)}B s:{ls}B: {s2.hex()} digest={dg.hex()}"))
+    # message mode (no free digest): fixed nonce of the r class, counter messages until s loses 1 (and 2) leading bytes
+    cands = [(kk, r) for kk, r in ktable(c) if r_class(c, r) == rcls and r != 0]
+    if c.size == 66:
+        # SHA-512 digests are far shorter than n here: with a small nonce s = k^-1 (e + r d) takes few values in its
+        # top bits, so a full-size nonce (from the seed) is used; both r classes have probability 1/2
+        cands = []
+        for j in range(64):
+            kk = int.from_bytes(core.seeded_bytes(seed, f"shk|{name}|{rcls}|{j}", 66), "big") % (c.n - 1) + 1
+            pt = recdsa.mul(c, kk, c.g)
+            if pt and pt[0] % c.n and r_class(c, pt[0] % c.n) == rcls:
+                cands = [(kk, pt[0] % c.n)]
+                break
+    if cands:
+        nonce, r = cands[0]
+        kinv = pow(nonce, -1, c.n)
+        kwm = {"algorithm": henum(h), "prehashed": False}
+        for target in (c.size - 1, c.size - 2):
+            found = None
+            for i in range(1 << 18):
+                m = f"c08|{seed}|{name}|{rcls}|{i}".encode()
+                s_ = kinv * (recdsa.bits2int(c, hashlib.new(h, m).digest()) + r * k["d"]) % c.n
+                if s_ and byte_len(s_) <= target:
+                    found = (m, s_)
+                    break
+            if found is None:
+                cnt["sh_classes_unreachable"] += 1
+                continue
+            m, s_ = found
+            if not recdsa.verify(c, q, h, m, r, s_):
+                raise core.HarnessError("searched signature is not valid under the reference")
+            cnt["sh_signatures"] += 1
+            for scheme, sig in (("raw", raw_sig(r, s_, c.size)), ("der", rder.encode_ecdsa_sig(r, s_))):
+                cnt["sh_verifications"] += 1
+                got = spsdk_verify(pub, sig, m, kwm)
+                if got != "T":
+                    viol.append(("C08.verify-valid-signature", valid_disc("ecc", scheme, got, sig, k),
+                                 f"{name} {h} message={m!r} r:{byte_len(r)}B s:{byte_len(s_)}B sig={sig.hex()}"))
     return {"viol": core.dedupe(viol), "count": cnt}
 
 
 # ---------------------------------------------------------------------------------------------
+# group cl: the nxpcrypto command line (key convert / key verify / signature create / signature verify)
 
-WORKERS = {"cv": w_conv, "rt": w_roundtrip, "ct": w_cert, "sv": w_sign, "fl": w_flips, "sh": w_shape}
+
+def w_cli(case: dict) -> dict:
+    from click.testing import CliRunner
+    from spsdk.apps.nxpcrypto import main
+
+    name, seed = case["key"], case["seed"]
+    k = idx()[name]
+    typ = k["type"]
+    viol: list = []
+    cnt = {"cl_invocations": 0, "cl_rejected": 0}
+    distinct: list = []
+    runner = CliRunner()
+    tmpdir = tempfile.mkdtemp(prefix="c08-cli-", dir=os.environ.get("VERIF_WORKDIR") or None)
+    seq = [0]
+
+    def out_path(ext: str) -> str:
+        seq[0] += 1
+        return os.path.join(tmpdir, f"o{seq[0]}.{ext}")
+
+    def run(*args: str):
+        """('ok', output) | ('spsdk', msg) | ('<Exception>', msg); a non-zero exit without exception counts as spsdk."""
+        from spsdk.exceptions import SPSDKError
+
+        cnt["cl_invocations"] += 1
+        res = runner.invoke(main, list(args))
+        if res.exception is None or isinstance(res.exception, SystemExit):
+            return ("ok" if res.exit_code == 0 else "spsdk"), res.output
+        if isinstance(res.exception, SPSDKError):
+            return "spsdk", str(res.exception)[:200]
+        return type(res.exception).__name__, str(res.exception)[:200]
+
+    def v(clause: str, disc: str, detail: str) -> None:
+        viol.append((f"C08.{clause}", disc, f"{name}: {detail}"))
+
+    def read(path: str) -> Optional[bytes]:
+        return open(path, "rb").read() if os.path.exists(path) else None
+
+    try:
+        exp_priv = priv_numbers_expected(name)
+        exp_pub = pub_numbers_expected(name)
+        src = {("priv", "PEM"): fixtures.key_path(name, True, "pem"), ("priv", "DER"): fixtures.key_path(name, True, "der"),
+               ("pub", "PEM"): fixtures.key_path(name, False, "pem"), ("pub", "DER"): fixtures.key_path(name, False, "der")}
+        # ---- key convert -----------------------------------------------------------------------
+        jobs = []
+        for (kind, senc), path in sorted(src.items()):
+            for oenc in ("PEM", "DER", "RAW"):
+                jobs.append((kind, senc, path, oenc, False))
+                if kind == "priv":
+                    jobs.append((kind, senc, path, oenc, True))
+        raw_files: dict = {}
+        for kind, senc, path, oenc, puk in jobs:
+            okind = "pub" if (puk or kind == "pub") else "priv"
+            out = out_path(oenc.lower())
+            args = ["key", "convert", "-e", oenc, "-i", path, "-o", out] + (["--puk"] if puk else [])
+            st, msg = run(*args)
+            what = f"{typ}/{okind}/{oenc}"
+            distinct.append(f"cl|{name}|convert|{kind}|{senc}|{oenc}|{int(puk)}")
+            if st == "spsdk":
+                cnt["cl_rejected"] += 1
+                continue
+            if st != "ok":
+                v("cli-key-convert", f"{what.split('/', 1)[0]}/{oenc}:{st}", f"{' '.join(args[:4])} from {kind} {senc}: {msg}")
+                continue
+            data = read(out)
+            if data is None:
+                v("cli-key-convert", f"{what}:no-output", " ".join(args[:4]))
+                continue
+            try:
+                if oenc == "RAW":
+                    size = recdsa.CURVES[k["curve"]].size
+                    want_len = 2 * size if okind == "pub" else size
+                    if len(data) != want_len:
+                        v("cli-key-convert", f"{typ}/RAW:wrong-width",
+                          f"{okind} key: {len(data)} bytes, the curve's fixed width gives {want_len}")
+                        continue
+                    if okind == "pub":
+                        got = oracle_public_bytes(data, "NXP", name)
+                        bad = got != exp_pub
+                    else:
+                        bad = int.from_bytes(data, "big") != k["d"]
+                    raw_files[okind] = out
+                elif okind == "pub":
+                    bad = oracle_public_bytes(data, oenc, name) != exp_pub
+                else:
+                    o = oracle_private_bytes(data, oenc, None)
+                    if o["type"] == "ecc" and o.get("x") is None:
+                        o["x"], o["y"] = exp_priv["x"], exp_priv["y"]
+                    bad = o != exp_priv
+                if bad:
+                    v("cli-key-convert", f"{what}:wrong-numbers", " ".join(args[:4]))
+            except (ValueError, rder.DerError) as e:
+                v("cli-key-convert", f"{what}:not-readable-by-oracle", f"{type(e).__name__}: {e}")
+        # RAW files read back by the same command
+        for okind, path in sorted(raw_files.items()):
+            out = out_path("der")
+            st, msg = run("key", "convert", "-e", "DER", "-i", path, "-o", out)
+            distinct.append(f"cl|{name}|reread-raw|{okind}")
+            data = read(out)
+            if st != "ok" or data is None:
+                v("cli-key-convert", f"{typ}/RAW:{'reread-rejected' if st in ('ok', 'spsdk') else st}", f"{okind} key: {msg}")
+                continue
+            try:
+                if okind == "pub":
+                    bad = oracle_public_bytes(data, "DER", name) != exp_pub
+                else:
+                    o = oracle_private_bytes(data, "DER", None)
+                    bad = o["d"] != k["d"] or o["curve"] != k["curve"]
+                if bad:
+                    v("cli-key-convert", f"{typ}/RAW:reread-wrong-numbers", okind)
+            except (ValueError, rder.DerError) as e:
+                v("cli-key-convert", f"{typ}/RAW:reread-not-readable-by-oracle", f"{okind}: {e}")
+        # ---- key verify ------------------------------------------------------------------------
+        oth = other_key(name)
+        for k1, k2, want in ((src[("priv", "PEM")], src[("pub", "DER")], True),
+                             (src[("pub", "PEM")], src[("priv", "DER")], True),
+                             (src[("priv", "DER")], fixtures.key_path(oth, False, "pem"), False)):
+            st, msg = run("key", "verify", "-k1", k1, "-k2", k2)
+            distinct.append(f"cl|{name}|key-verify|{os.path.basename(k1)}|{os.path.basename(k2)}")
+            if st not in ("ok", "spsdk"):
+                v("cli-key-verify", f"{typ}:{st}", msg)
+            elif (st == "ok" and "Keys match" in msg) != want:
+                v("cli-key-verify", f"{typ}:{'rejects-pair' if want else 'accepts-non-pair'}", f"{k1} {k2}: {msg!r}")
+        # ---- signature create / verify -----------------------------------------------------------
+        msgf = os.path.join(tmpdir, "data.bin")
+        msg_bytes = core.seeded_bytes(seed, f"cli|{name}", 77)
+        open(msgf, "wb").write(msg_bytes)
+        badf = os.path.join(tmpdir, "data-flipped.bin")
+        open(badf, "wb").write(flip(msg_bytes, 300))
+        encf = os.path.join(tmpdir, "enc.pem")
+        from cryptography.hazmat.primitives import serialization as ser
+
+        open(encf, "wb").write(ckey(name).private_bytes(ser.Encoding.PEM, ser.PrivateFormat.PKCS8,
+                                                         ser.BestAvailableEncryption(PASSWORDS["p32"].encode())))
+        dh = DEFAULT_HASH[k.get("curve", "rsa")]
+        variants = []
+        for alg in (None, "sha512" if dh != "sha512" else "sha256"):
+            if typ == "rsa":
+                variants += [(alg, "v15", []), (alg, "pss", ["-pp"])]
+            else:
+                variants += [(alg, "raw", ["-e", "NXP"]), (alg, "der", ["-e", "DER"]), (alg, "der", [])]
+        for vi, (alg, scheme, extra) in enumerate(variants):
+            keyfile, pwargs = (src[("priv", "DER")], []) if vi % 2 else (src[("priv", "PEM")], [])
+            if vi == len(variants) - 1:
+                keyfile, pwargs = encf, ["-p", PASSWORDS["p32"]]
+            sigf = out_path("sig")
+            aargs = ["-a", alg] if alg else []
+            st, out = run("signature", "create", "-k", keyfile, "-i", msgf, "-o", sigf, *aargs, *extra, *pwargs)
+            what = f"{typ}/{scheme}"
+            distinct.append(f"cl|{name}|sign|{alg}|{scheme}|{'-'.join(extra)}|{vi}")
+            sig = read(sigf)
+            if st != "ok" or sig is None:
+                if st == "spsdk":
+                    cnt["cl_rejected"] += 1
+                    v("cli-signature", f"{what}:create-rejected", str(out)[-200:])
+                else:
+                    v("cli-signature", f"{what}:create:{st}", str(out)[-200:])
+                continue
+            h = alg or dh
+            dg = hashlib.new(h, msg_bytes).digest()
+            if not ref_verify(name, h, scheme, dg, sig):
+                v("cli-signature", f"{what}:not-valid-per-reference", f"alg={alg} {extra}: {len(sig)} bytes")
+                continue
+            pargs = ["-pp"] if scheme == "pss" else []
+            for pubf, dataf, vname, vmsg in ((src[("pub", "PEM")], msgf, name, msg_bytes),
+                                             (src[("pub", "DER")], badf, name, flip(msg_bytes, 300)),
+                                             (fixtures.key_path(oth, False, "pem"), msgf, oth, msg_bytes)):
+                st, out = run("signature", "verify", "-k", pubf, "-i", dataf, "-s", sigf, *aargs, *pargs)
+                want = ref_verify(vname, h, scheme, hashlib.new(h, vmsg).digest(), sig)
+                if st != "ok":
+                    if want:
+                        v("cli-signature", f"{what}:verify:{'rejected' if st == 'spsdk' else st}", str(out)[-200:])
+                    continue
+                got = "IS matching" in out
+                if got != want or ("IS NOT matching" in out) == got:
+                    v("cli-signature", f"{what}:verify:{'accepts-invalid' if got else 'rejects-valid'}", f"alg={alg}: {out!r}")
+    finally:
+        shutil.rmtree(tmpdir, ignore_errors=True)
+    return {"viol": core.dedupe(viol), "count": cnt, "distinct": distinct}
+
+
+# ---------------------------------------------------------------------------------------------
+
+WORKERS = {"cv": w_conv, "rt": w_roundtrip, "ct": w_cert, "sv": w_sign, "fl": w_flips, "sh": w_shape, "cl": w_cli}
 
 
 def w_dispatch(case: dict) -> dict:
     import logging
+    import traceback
 
     logging.getLogger("spsdk").setLevel(logging.ERROR)  # "Signature has unexpected length" warnings are expected
-    return WORKERS[case["g"]](case)
+    try:
+        return WORKERS[case["g"]](case)
+    except (core.HarnessError, core.Watchdog):
+        raise
+    except Exception as e:  # noqa
+        # An exception that escapes from a plain accessor (get_public_key, .x, .curve, ...) which the workers call
+        # without a guard: a finding if it was raised inside the tree under check, a harness crash otherwise.
+        frames = traceback.extract_tb(e.__traceback__)
+        inner = [f for f in frames if os.path.realpath(f.filename).startswith(core.REPO + os.sep)]
+        if not inner:
+            raise
+        where = f"{os.path.relpath(inner[-1].filename, core.REPO)}:{inner[-1].name}"
+        return {"viol": [("C08.unexpected-exception", f"{case['g']}:{type(e).__name__}@{where}",
+                          "".join(traceback.format_exception_only(type(e), e))[:300])]}
 
 
 def sig_bits(name: str, scheme: str) -> int:
@@ -1072,23 +1363,26 @@ def build_cases(tier: str, seed: int) -> list[dict]:
                 if cname == "secp521r1" and rc == "full-msb1":
                     continue
                 cases.append({"g": "sh", "key": n, "rcls": rc, "seed": seed})
-    # fl (heavy: early in the queue)
+    # fl (heavy: early in the queue).  thorough: every key x every hash, all bits.  quick: all bits on the first key
+    # of each curve / RSA size with the default hash (how a signature is decoded does not depend on which key of
+    # a size verifies it), first/middle/last byte x 8 bits on every other key.
     for n in key_names():
         k = idx()[n]
         schemes = ("v15", "pss") if k["type"] == "rsa" else ("raw", "der")
         dh = DEFAULT_HASH[k.get("curve", "rsa")]
+        first = n == key_names(k.get("curve") or family(n))[0]
         for scheme in schemes:
             for h in (HASHES if not quick else (dh,)):
-                if k["type"] == "rsa":
-                    if h != dh and n != key_names(family(n))[0]:
-                        continue  # thorough: every hash on one key per size, the default hash on every key
-                    cases.append({"g": "fl", "key": n, "hash": h, "scheme": scheme, "lo": 0, "hi": None, "seed": seed})
+                base = {"g": "fl", "key": n, "hash": h, "scheme": scheme, "seed": seed}
+                if quick and not first:
+                    cases.append({**base, "lo": 0, "hi": None, "bytes3": 1})
+                elif k["type"] == "rsa":
+                    cases.append({**base, "lo": 0, "hi": None})
                 else:
                     nb = sig_bits(n, scheme)
                     for lo in range(0, nb, FLIP_CHUNK):
                         last = lo + FLIP_CHUNK >= nb
-                        cases.append({"g": "fl", "key": n, "hash": h, "scheme": scheme, "lo": lo,
-                                      "hi": None if last else lo + FLIP_CHUNK, "seed": seed})
+                        cases.append({**base, "lo": lo, "hi": None if last else lo + FLIP_CHUNK})
     # rt
     for n in key_names():
         k = idx()[n]
@@ -1097,9 +1391,11 @@ def build_cases(tier: str, seed: int) -> list[dict]:
                 cases.append({"g": "rt", "key": n, "kind": "priv", "enc": enc, "pw": pwn})
         for enc in ("PEM", "DER", "NXP") + (("NXP4",) if k["type"] == "rsa" else ()):
             cases.append({"g": "rt", "key": n, "kind": "pub", "enc": enc, "pw": "none"})
-    # ct
+    # ct, cl
     for t in cert_table():
         cases.append({"g": "ct", **t})
+    for n in key_names():
+        cases.append({"g": "cl", "key": n, "seed": seed})
     # sv
     for n in key_names():
         k = idx()[n]
@@ -1108,8 +1404,13 @@ def build_cases(tier: str, seed: int) -> list[dict]:
         for h in HASHES:
             for scheme in schemes:
                 for pre in (0, 1):
-                    cases.append({"g": "sv", "key": n, "hash": h, "scheme": scheme, "pre": pre, "seed": seed,
-                                  "flip8": (not quick) or h == dh})
+                    c = {"g": "sv", "key": n, "hash": h, "scheme": scheme, "pre": pre, "seed": seed,
+                         "flip8": (not quick) or (h == dh and pre == 0)}
+                    if not quick:
+                        c["lens"] = "thorough"
+                        if h == dh and pre == 0:
+                            c["flipmax"] = 65  # every bit of every message up to 65 B
+                    cases.append(c)
     return cases
 
 
@@ -1119,18 +1420,28 @@ def run(ctx: core.Ctx) -> None:
     rrsa.selftest()
     ctx.count("reference_selftests", 3)
     nkeys = len(key_names())
+    thorough = ctx.tier != "quick"
+    lens = MSG_LENS_THOROUGH if thorough else MSG_LENS
+    flipmsg = ("messages <= 65 B at the key's default hash, <= 8 B elsewhere" if thorough else
+               "messages <= 8 B at the key's default hash, 1 B elsewhere")
     ctx.rule = (
         f"full products over the committed pool of {nkeys} keys (RSA-2048/3072/4096, P-256/384/521 incl. keys with a "
         "leading-zero X or Y): [rt] key x {private, public} x {PEM, DER, NXP(, NXP with 4-byte exponent)} x password "
         "{none, 'p', 32 chars} x entry point {typed parse, PrivateKey/PublicKey.parse, extract_public_key_from_data, "
         "save/load through a file, recreate*, other type's parser}; [ct] every fixture certificate x {DER, PEM, NXP-padded} x "
         "{Certificate.parse, extract_public_key_from_data} and validate() under the right and two wrong issuers; [sv] key x "
-        f"hash {HASHES} x {{PKCS1v15, PSS | raw, DER}} x prehashed x message length {MSG_LENS} with SPSDK signing, SPSDK + "
-        "reference verifying, wrong key (same size, other size), wrong hash, wrong padding, every single-bit flip of "
-        "messages <= 8 B, digest bit flips, reference-made signatures, PlainFileSP.get_signature x {default, NXP, DER}; [fl] every "
-        "single-bit flip of a signature (ECC raw and DER: all bits; RSA: all bits) against the reference verdict; [sh] genuine "
+        f"hash {HASHES} x {{PKCS1v15, PSS | raw, DER}} x prehashed x message length {lens} with SPSDK signing, SPSDK + "
+        "reference verifying, wrong key (same size, other size), wrong hash, wrong padding, other PSS salt lengths, every "
+        f"single-bit flip of {flipmsg}, digest bit flips, reference-made signatures, the key's default algorithm, "
+        "PlainFileSP.get_signature x {default, NXP, DER}; [fl] every "
+        "single-bit flip of a signature, ECC raw and DER and RSA v1.5/PSS (thorough: all bits, every key x hash; quick: all bits on "
+        "one key per curve/size, first/middle/last byte x 8 bits on the others) against the reference verdict; [sh] genuine "
         "ECDSA signatures with chosen shapes: r class {full/msb0, full/msb1, short} x every byte length of s x top bit of s, "
-        "raw and DER; [cv] every (len r, msb r, len s, msb s) class per curve through ECDSASignature.get_encoding/parse/"
+        "raw and DER (prehashed mode, digest solved from the private scalar), plus message-mode signatures whose s lost 1 / 2 "
+        "leading bytes; [cl] nxpcrypto on every key: key convert x source {private, public} x {PEM, DER} x target {PEM, DER, RAW} "
+        "x --puk, RAW read back, key verify, signature create x {default, explicit hash} x {NXP, DER | v1.5, PSS} x key file "
+        "{PEM, DER, password-protected} + signature verify on {same, flipped data, other key}; "
+        "[cv] every (len r, msb r, len s, msb s) class per curve through ECDSASignature.get_encoding/parse/"
         "export, the constructor, serialize_signature and SignatureProvider.get_signature x provider output {DER, raw} x "
         "requested {default, NXP, DER}. A case is distinct/non-trivial when it is a different point of these products that "
         "the code accepted (exports refused with SPSDKError — private keys in NXP form — are counted as rejected); byte "
@@ -1145,7 +1456,7 @@ def run(ctx: core.Ctx) -> None:
     for c in cases:
         per_group[c["g"]] = per_group.get(c["g"], 0) + 1
     ctx.cov["cases_per_group"] = per_group
-    for g in ("cv", "sh", "fl", "rt", "ct", "sv"):
+    for g in ("cv", "sh", "fl", "rt", "ct", "cl", "sv"):
         for c in cases:
             if c["g"] == g:
                 ctx.sample(c)
@@ -1154,7 +1465,10 @@ def run(ctx: core.Ctx) -> None:
     for n in key_names():
         ckey(n)
     done: dict = {}
-    for case, res in ctx.pool_map(w_dispatch, cases, timeout=300, chunksize=1):
+    # The determinism double-run covers the head of the queue (cv cases: fully deterministic).  SPSDK-made ECDSA/PSS
+    # signatures are random (DESIGN 1.2: not owned); an sv/cl record that carries such bytes is not double-run.
+    det = 3 if cases and cases[0]["g"] not in ("sv", "cl") else 0
+    for case, res in ctx.pool_map(w_dispatch, cases, timeout=300, chunksize=1, check_det=det):
         rec = case
         if isinstance(res, dict) and res.get("aux"):
             rec = {**case, **res["aux"]}
@@ -1168,12 +1482,12 @@ def run(ctx: core.Ctx) -> None:
     c = ctx.counters
     ctx.cov["distinct_nontrivial"] = (len(ctx.distinct) + c.get("cv_classes", 0) + c.get("fl_flips", 0)
                                       + c.get("sh_signatures", 0) * 2 + c.get("sv_negative", 0))
-    ctx.cov["evaluations"] = (c.get("cv_calls", 0) + c.get("rt_entry_points", 0) + c.get("ct_parses", 0)
+    ctx.cov["evaluations"] = (c.get("cv_calls", 0) + c.get("rt_entry_points", 0) + c.get("ct_parses", 0) + c.get("cl_invocations", 0)
                               + c.get("ct_validations", 0) + c.get("sv_verifications", 0) + c.get("sv_negative", 0)
                               + c.get("fl_flips", 0) + c.get("sh_verifications", 0) * 2)
     ctx.cov["dimensions"] = {
         "keys": {f: len(key_names(f)) for f in ("rsa2048", "rsa3072", "rsa4096", "secp256r1", "secp384r1", "secp521r1")},
-        "hashes": list(HASHES), "message_lengths": list(MSG_LENS), "passwords": list(PASSWORDS),
+        "hashes": list(HASHES), "message_lengths": list(lens), "passwords": list(PASSWORDS),
         "sigconv_classes": c.get("cv_classes", 0), "sigconv_empty_classes": c.get("cv_classes_empty", 0),
         "sigconv_classes_with_undetermined_width": c.get("cv_ambiguous_width", 0),
         "signature_bits_flipped": c.get("fl_flips", 0), "flips_still_valid_per_reference": c.get("fl_still_valid", 0),
